@@ -23,6 +23,7 @@ type SyncCase struct {
 	Differ int          `json:"differ,omitempty"` // fsutil.DiffType
 	Notify bool         `json:"notify,omitempty"`
 	Unpriv bool         `json:"unpriv,omitempty"` // receiver (and whole transfer) runs as uid 1000
+	MemEOF bool         `json:"memeof,omitempty"` // in-memory source whose readers return the last bytes together with io.EOF
 }
 
 func (c SyncCase) String() string {
@@ -79,7 +80,9 @@ func (d *syncDirs) transfer(c SyncCase, srcTree fsmodel.Tree) *SyncObs {
 	}
 	var src fsutil.FS
 	if c.Mem {
-		src = memfs.New(srcTree)
+		m := memfs.New(srcTree)
+		m.EOFWithData = c.MemEOF
+		src = m
 		o.View = srcTree.Clone()
 		o.View.Sort()
 	} else {
